@@ -2,15 +2,15 @@
 
    calculate_path hands contiguous slices `vertices[start..=i]` of the
    control points to the sub-path routines; a slice of a list of covered points
-   ([BezierIEEE.point_ok E]) with (n - 1) * 2^E <= 2^19 is again such a list,
+   ([BezierIEEE.point_ok E]) with n * 2^E <= 2^21 is again such a list,
    so every Bezier subdivision it starts returns within the pinned fuel
-   ([BezierIEEE.T01g_ieee_bounded]); with an atan2 that has its values in
+   ([BezierIEEETight.T01g_ieee_bounded_tight]); with an atan2 that has its values in
    [-PI, PI] the theta loop returns as well (Proofs/ThetaLoop.v), and nothing
    else in the curve can run out of fuel or panic (Proofs/CurveNoPanic.v, whose
    induction over calculate_path is repeated here with the slice invariant). *)
 From RM Require Import Model.ControlPoints Model.Curve Gen.Generated
      Proofs.BezierRefine Proofs.PathFacts Proofs.LengthFacts Proofs.CurveRefine
-     Proofs.CurveNoPanic Proofs.ThetaLoop Proofs.BezierIEEE.
+     Proofs.CurveNoPanic Proofs.ThetaLoop Proofs.BezierIEEE Proofs.BezierIEEETight.
 Require Import ZifyBool Lia.
 Open Scope nat_scope.
 
@@ -86,7 +86,7 @@ End PathQ.
 (* ---------- the slices of covered control points ---------- *)
 
 Definition covered (E : Z) (sub : list Pos) : Prop :=
-  Forall (point_ok E) sub /\ (Z.of_nat (length sub - 1) * 2 ^ E <= 2 ^ 19)%Z.
+  Forall (point_ok E) sub /\ (Z.of_nat (length sub) * 2 ^ E <= 2 ^ 21)%Z.
 
 Lemma Forall_firstn {A} (P : A -> Prop) n : forall l, Forall P l -> Forall P (firstn n l).
 Proof.
@@ -106,14 +106,14 @@ Proof.
   assert (Hl : length (firstn a (skipn b verts)) <= length verts)
     by (rewrite firstn_length, skipn_length; lia).
   assert (0 < 2 ^ E)%Z by (apply Z.pow_pos_nonneg; lia).
-  assert (Z.of_nat (length (firstn a (skipn b verts)) - 1) <= Z.of_nat (length verts - 1))%Z by lia.
+  assert (Z.of_nat (length (firstn a (skipn b verts))) <= Z.of_nat (length verts))%Z by lia.
   nia.
 Qed.
 
 (* Curve::new / BorrowedCurve::new at the pure level: a value *)
 Theorem curve_L1_bounded lm mode pts e E :
   atan2_in_range lm -> (0 <= E)%Z ->
-  (Z.of_nat (length pts - 1) * 2 ^ E <= 2 ^ 19)%Z ->
+  (Z.of_nat (length pts) * 2 ^ E <= 2 ^ 21)%Z ->
   Forall (fun p => point_ok E (pc_pos p)) pts ->
   exists c, curve_L1 lm bezier_fuel mode pts e = Done c.
 Proof.
@@ -129,7 +129,7 @@ Proof.
     - intros verts a b. apply covered_slice. exact HE.
     - intros path sub [] _ Hne [HF HKs]. split; [|auto].
       apply good_false_iff.
-      destruct (T01g_ieee_bounded E path sub HE HKs Hne HF) as (p' & ->). eauto.
+      destruct (T01g_ieee_bounded_tight E path sub HE HKs Hne HF) as (p' & ->). eauto.
     - intros a b c. apply good_false_iff. apply circular_arc_properties_done. exact Hlm.
     - split; [apply Forall_map; exact Hok|]. rewrite map_length. exact HK.
     - apply map_length. }
